@@ -342,12 +342,16 @@ void ezc3d::c3d::frame(const ezc3d::DataNS::Frame &f, size_t idx)
     if (f.points().nbPoints() > 0 && static_cast<double>(parameters().group("POINT").parameter("RATE").valuesAsFloat()[0]) == 0.0){
         throw std::runtime_error("Point frame rate must be specified if you add some");
     }
-    if (f.analogs().nbSubframes() > 0 && static_cast<double>(parameters().group("ANALOG").parameter("RATE").valuesAsFloat()[0]) == 0.0){
+    // The ANALOG group should always hold its parameters, but we have to take in account Optotrak lazyness
+    // (as updateHeader does): a frame without any channel does not need them
+    size_t subSize(f.analogs().nbSubframes());
+    bool skipAnalogParameters(parameters().group("ANALOG").nbParameters() == 0
+                              && (subSize == 0 || f.analogs().subframe(0).nbChannels() == 0));
+    if (!skipAnalogParameters && subSize > 0 && static_cast<double>(parameters().group("ANALOG").parameter("RATE").valuesAsFloat()[0]) == 0.0){
         throw std::runtime_error("Analog frame rate must be specified if you add some");
     }
 
-    size_t nAnalogs(static_cast<size_t>(parameters().group("ANALOG").parameter("USED").valuesAsInt()[0]));
-    size_t subSize(f.analogs().nbSubframes());
+    size_t nAnalogs(skipAnalogParameters ? 0 : static_cast<size_t>(parameters().group("ANALOG").parameter("USED").valuesAsInt()[0]));
     if (subSize != 0){
         size_t nChannel(f.analogs().subframe(0).nbChannels());
         size_t nAnalogByFrames(header().nbAnalogByFrame());
